@@ -151,6 +151,40 @@ func decodeManifestWrite(data []byte) int {
 	return recUnknown
 }
 
+// classifyPrefix: the kind of a session record of which only a prefix of the bytes is known (a failing write stored
+// part of it). Fields are encoded in the order comparer, journal number, next file number, sequence number, ...
+func classifyPrefix(data []byte) int {
+	if len(data) < 8 {
+		return recUnknown
+	}
+	b := data[7:]
+	tag, r, ok := uvar(b)
+	if !ok {
+		return recUnknown
+	}
+	switch tag {
+	case 1:
+		return recSnapshot
+	case 2:
+		return recFlush
+	case 3:
+		if r, ok = svar(r); !ok || len(r) == 0 {
+			return recUnknown
+		}
+		t2, _, ok := uvar(r)
+		if !ok {
+			return recUnknown
+		}
+		switch t2 {
+		case 4:
+			return recTxn
+		case 5, 6, 7:
+			return recCompact
+		}
+	}
+	return recUnknown
+}
+
 // attempt is one try to commit a session record, reconstructed from the manifest operations.
 type attempt struct {
 	start, end int  // operation indexes (end: the operation that decided it)
@@ -220,6 +254,7 @@ func scanManifest(ops []vstor.Op, from int, partialOf func(i int) int) (atts []*
 			atts = append(atts, a)
 			if o.Fail {
 				a.failed = true
+				a.kind = classifyPrefix(o.Data)
 				if partialOf(i) >= 1000 {
 					a.unsure = true
 				}
@@ -385,10 +420,11 @@ func kCase(sc *Scenario, ops []vstor.Op, bs []*bstat, edits []editEv, reopens []
 				add(failS, fmt.Sprintf("(FJSync %d, KBR true RErr)", n))
 			case wIdx < 0:
 				add(lo, "(FWriteEarly, KBR false RErr)")
-			case lateCreateFail >= 0:
-				add(wIdx, fmt.Sprintf("(FWriteLate %d %v, KBR false RErr)", n, synced))
 			default:
-				return "", "errored_write_unexplained"
+				// journaled (and synced if asked) and applied; what failed is the rotation that follows (the journal Create,
+				// or the wait for a flush that is failing)
+				_ = lateCreateFail
+				add(wIdx, fmt.Sprintf("(FWriteLate %d %v, KBR false RErr)", n, synced))
 			}
 			continue
 		}
@@ -404,13 +440,32 @@ func kCase(sc *Scenario, ops []vstor.Op, bs []*bstat, edits []editEv, reopens []
 				}
 			}
 		}
+		// lastHook: the last commit of another job that the session reported inside the window; pendingFlush: the
+		// journal was rotated inside the window (by OpenTransaction) and no flush has committed since
+		lastHook, rotIdx := lo, -1
+		for i := lo; i < hi; i++ {
+			if ops[i].Fd.Type == storage.TypeJournal && ops[i].Kind == vstor.OpCreate && !ops[i].Fail {
+				rotIdx = i
+			}
+		}
+		pendingFlush := rotIdx >= 0
+		for _, e := range edits {
+			if e.idx > lo && e.idx <= s.b.AckIdx && !e.txn && !(e.nAdded == 0 && e.nDelete == 0 && !e.flush) {
+				if e.idx > lastHook {
+					lastHook = e.idx
+				}
+				if e.flush && e.idx > rotIdx {
+					pendingFlush = false
+				}
+			}
+		}
 		// the attempts of this commit: the first append of a transaction record inside the window and every
 		// attempt after it up to the end of the call (Commit holds the commit lock across its retries; the discard
 		// follows at once)
 		var mine []*attempt
 		first := -1
 		for k, a := range atts {
-			if a.start >= lo && a.start < hi && !a.fresh && (a.kind == recTxn || (a.failed && a.kind == recUnknown)) {
+			if a.start >= lo && a.start < hi && !a.fresh && (a.kind == recTxn || (a.failed && a.kind == recUnknown && a.start >= lastHook && !s.ok)) {
 				first = k
 				break
 			}
@@ -431,15 +486,51 @@ func kCase(sc *Scenario, ops []vstor.Op, bs []*bstat, edits []editEv, reopens []
 				return "", "ok_txn_without_commit"
 			case freshInWin == 0:
 				add(lo, "(FWriteEarly, KBR false RErr)")
+			case pendingFlush:
+				// OpenTransaction rotated the journal and the flush it waits for did not commit: the call failed before
+				// the transaction existed; the failing attempts are the flush's (rendered below)
+				add(lo, "(FWriteEarly, KBR false RErr)")
 			default:
-				return "", "txn_failed_fresh_first"
+				// every attempt went through newManifest (the manifest had reached its size limit, or manifestFailed was
+				// set). A background commit that fails keeps the commit lock until it succeeds, so the attempts after the
+				// last commit the session reported are this transaction's
+				var fr []*attempt
+				for _, a := range atts {
+					if a.start >= lastHook && a.start >= lo && a.start < hi && a.fresh {
+						fr = append(fr, a)
+					}
+				}
+				if len(fr) == 0 {
+					return "", "txn_failed_fresh_first"
+				}
+				pos := fr[0].start
+				add(pos, fmt.Sprintf("(FTxnBegin %d, KB false)", n))
+				discarded := false
+				for _, a := range fr {
+					used[a] = true
+					switch {
+					case a.rmFailed:
+						return "", "txn_fresh_remove_failed"
+					case a.failed:
+						add(pos, "(FTxnCommitFail false, KS)")
+					case emptyEdit >= 0 && edits[emptyEdit].idx > a.end && !discarded:
+						discarded = true
+						usedEdit[emptyEdit] = true
+						add(pos, "(FTxnDiscard true, KS)")
+					default:
+						return "", "txn_fresh_attempt_unexplained"
+					}
+				}
+				if !discarded {
+					add(pos, "(FTxnDiscard false, KS)")
+				}
 			}
 			continue
 		}
-		if atts[first].failed && atts[first].kind == recUnknown {
-			// a torn or unsure append: it is the transaction's only if a transaction table was written just before;
-			// otherwise it may be a background commit: leave the scenario out
-			return "", "txn_torn_append_unattributed"
+		if atts[first].failed && atts[first].kind == recUnknown && pendingFlush {
+			// the torn append is the pending flush's: the call failed in OpenTransaction
+			add(lo, "(FWriteEarly, KBR false RErr)")
+			continue
 		}
 		pos := atts[first].start
 		if !atts[first].failed {
